@@ -280,6 +280,17 @@ EvaluateStep(ev) ==
     IN Force([StepRec(cands, <<"evaluations", IF exact THEN "evaluations_exact" ELSE "evaluations_memo_only">>) EXCEPT !.memo = MemoPut(memo, key, val)])
 TrEvaluate == IsEvent("evaluate") /\ sc' = EvaluateStep(Ev) /\ OEvaluate(Ev.obj, OwnWs(Ev)) /\ Record
 
+\* concurrent evaluations on one optimizer, one workspace per thread (C12): exactly the values the same calls return one after another
+EvalMtStep(ev) ==
+    LET c == cfgs[ev.obj]
+        info == [order |-> c.order, dim |-> c.dim, threads |-> Len(ev.xs)]
+        keyOf(t) == <<"evaluate", cfgs[ev.obj], TMapOf(ev.obj), SMapOf(ev.obj), ev.xs[t], IF Has(ev, "costs") THEN ev.costs ELSE << >>, IF Has(ev, "overload") THEN ev.overload ELSE 3>>
+        valOf(t) == [cost |-> ev.out.results[t].cost, grad |-> ev.out.results[t].grad]
+        cands == IF Has(ev, "exception") \/ Len(ev.out.results) # Len(ev.xs) THEN <<Cand("C12", "concurrent.shape", FALSE, info)>>
+                 ELSE [t \in 1..Len(ev.xs) |-> Cand("C12", "concurrent.bits", keyOf(t) \in DOMAIN memo /\ memo[keyOf(t)] = valOf(t), info @@ [thread |-> t])]
+    IN Force(StepRec(cands, <<"concurrent_evaluations">>))
+TrEvalMt == IsEvent("evaluate_mt") /\ sc' = EvalMtStep(Ev) /\ OEvaluate(Ev.obj, FALSE) /\ Record
+
 (* ------------------------- gradient self-check (C19) ------------------- *)
 \* rel_error = error_norm / |analytical|: compare squares
 RelSq(re, d2, a2) == RLe(RAbs(RSub(RMul(RSq(re), a2), d2)), RAdd(RMul(RPow("10", -10), d2), RPow("10", -300)))
@@ -349,7 +360,7 @@ TrReset ==
     /\ cfgs' = << >> /\ mstate' = << >> /\ nexec' = nexec + 1 /\ stats' = Bump(stats, "executions", 1) /\ sc' = << >>
     /\ UNCHANGED <<bad, worst>> /\ Advance
 TrNote == (IsEvent("note") \/ IsEvent("ws_destroy")) /\ sc' = Force(StepRec(<<>>, <<"notes">>)) /\ UNCHANGED <<opts, umaps, nextWs>> /\ Record
-Known == {"opt_new", "set_init", "verdict", "set_flags", "set_energy", "set_steps", "set_tmap", "set_smap", "tmap_new", "smap_new", "tmap_set",
+Known == {"evaluate_mt", "opt_new", "set_init", "verdict", "set_flags", "set_energy", "set_steps", "set_tmap", "set_smap", "tmap_new", "smap_new", "tmap_set",
           "smap_set", "get_dim", "init_guess", "evaluate", "check_grad", "opt_copy", "opt_assign", "opt_destroy", "get_optimal", "reset",
           "note", "ws_destroy"}
 TrUnknown ==
@@ -359,7 +370,7 @@ TrUnknown ==
 
 TraceInit == l = 1 /\ bad = <<>> /\ stats = [lines |-> Len(Tr)] /\ worst = << >> /\ memo = << >> /\ nexec = 0 /\ sc = << >>
              /\ cfgs = << >> /\ mstate = << >> /\ OptInit
-TraceNext == TrSetInit \/ TrNew \/ TrVerdict \/ TrSetFlags \/ TrSetEnergy \/ TrSetSteps \/ TrSetTMap \/ TrSetSMap \/ TrMapNew \/ TrMapSet
+TraceNext == TrEvalMt \/ TrSetInit \/ TrNew \/ TrVerdict \/ TrSetFlags \/ TrSetEnergy \/ TrSetSteps \/ TrSetTMap \/ TrSetSMap \/ TrMapNew \/ TrMapSet
              \/ TrGetDim \/ TrGuess \/ TrEvaluate \/ TrCheckGrad \/ TrCopy \/ TrDestroy \/ TrOptimal \/ TrReset \/ TrNote \/ TrUnknown
 TraceSpec == TraceInit /\ [][TraceNext]_tvars
 TraceInv == OptObjInv
